@@ -17,11 +17,13 @@ sys.setrecursionlimit(100000)
 SPEC_FUNCS = {}
 
 
-def spec(*argtypes, ret='int'):
-    """Register a spec function.  argtypes in {'int','int1','int2'}."""
+def spec(*argtypes, ret='int', abstract=False):
+    """Register a spec function.  argtypes in {'int','int1','int2'}.  abstract=True: executable here, but only declared
+    (uninterpreted, never unfolded) for the solver -- everything the proofs know about it comes from stated lemmas."""
     def deco(f):
         f._spec_argtypes = argtypes
         f._spec_ret = ret
+        f._spec_abstract = abstract
         SPEC_FUNCS[f.__name__] = f
         return f
     return deco
@@ -224,3 +226,37 @@ def PartnerSum(a, b, n):
 def XZPartial(g, n):
     # sum over odd positions l < n of g[l] * g[l-1]: the x.z products of the qubits completely below position n
     return 0 if n <= 0 else XZPartial(g, n - 1) + (g[n - 1] * g[n - 2] if (n - 1) % 2 == 1 else 0)
+
+
+# ---------------------------------------------------------------- GF(2) linear algebra (z2inv / z2rank)
+@spec('int1', 'int', 'int2', 'int', 'int')
+def DotOff(u, off, M, n, c):
+    # integer (unreduced) sum over k < n of u[off + k] * M[k][c]: entry c of  (u[off:off+n]) . M
+    return 0 if n <= 0 else DotOff(u, off, M, n - 1, c) + u[off + n - 1] * M[n - 1][c]
+
+
+@spec('int1', 'int')
+def Lead(row, n):
+    # first index c < n with row[c] != 0, or n if there is none (leading column of a row)
+    return 0 if n <= 0 else (Lead(row, n - 1) if Lead(row, n - 1) < n - 1 else (n - 1 if row[n - 1] != 0 else n))
+
+
+@spec('int2', 'int', 'int', abstract=True)
+def Z2Rank(M, nr, nc):
+    # rank over GF(2) of the nr x nc matrix M (entries taken mod 2).  Abstract for the solver: the proofs use only the three
+    # classical facts stated as assumed lemmas (invariance under row swap / row addition, rank of an echelon form).
+    # Executable definition, independent of pyclifford.utils.z2rank: size of a greedily built xor-basis of the rows
+    # (each basis vector keyed by its leading column).
+    basis = {}
+    for r in range(nr):
+        v = 0
+        for c in range(nc):
+            v |= (int(M[r][c]) % 2) << (nc - 1 - c)
+        while v:
+            h = v.bit_length()
+            if h in basis:
+                v ^= basis[h]
+            else:
+                basis[h] = v
+                break
+    return len(basis)
